@@ -494,3 +494,43 @@ def flush_pending(db, ctx):
                            "%s: `%s` emits the pending %s inside the loop; the same call after the loop flushes the last one: %s" % (
                                f.short(), render(c)[:60], used, after), fn=f, site=c.get("sp"))
     ctx.floor(1)
+
+
+@rule("C07.psm-set-source", "the prolonged-sound-mark class is built from the configured `prolongedSoundMarks` and nothing else: no other value is inserted "
+                            "into the set the regex is compiled from (a replacement symbol outside the configured marks must not be collapsed)")
+def psm_set_source(db, ctx):
+    from ..db import walk, is_call, callee, call_args, path_ends, render, peel
+    f = [g for g in db.impls_of("InputTextPlugin::set_up") if "ProlongedSoundMark" in g.key]
+    if not f:
+        raise AnchorMissing("ProlongedSoundMarkPlugin::set_up")
+    f = f[0]
+    v = db.view(f, depth=1, keep=("prolongs_as_regex",))
+    MUT = {"extend", "insert", "push", "append", "remove", "retain", "clear", "extend_from_slice", "drain", "take", "replace"}
+
+    def from_marks(e):
+        return any(x.get("k") == "Field" and x.get("name") == "prolongedSoundMarks" for x, _ in walk(e))
+
+    def other_setting(e):
+        return [x.get("name") for x, _ in walk(e) if x.get("k") == "Field" and "PluginSettings" in (x.get("adt") or "") and x.get("name") != "prolongedSoundMarks"]
+    n = 0
+    for x, ps in walk(v.hir):
+        if x.get("k") == "MethodCall" and x.get("method") in MUT and "HashSet<char" in ((x.get("rty") or "") + (peel(x.get("recv")).get("ty") or "")):
+            n += 1
+            args_ok = all(from_marks(a) for a in x.get("args", [])) and x["method"] in ("extend", "insert")
+            ctx.ob("set_up|set-edit#%d" % n, args_ok, "ProlongedSoundMarkPlugin::set_up edits the mark set: `%s` — the set must hold exactly the configured marks" % render(x)[:100], fn=f, site=x.get("sp"))
+    # the value stored as the set / handed to the regex builder comes from prolongedSoundMarks only
+    stores = [x for x, _ in walk(v.hir) if x.get("k") == "Assign" and peel(x["l"]).get("k") == "Field" and "HashSet<char" in (peel(x["l"]).get("ty") or "")]
+    if not stores:
+        raise AnchorMissing("assignment of the mark set in ProlongedSoundMarkPlugin::set_up")
+    for s in stores:
+        r_ = peel(s["r"])
+        if r_.get("k") == "Path" and "mut_init" in r_:      # `let mut set = ..collect()`: edits of it are judged above, its source here
+            r_ = r_["mut_init"]
+        src = render(r_, x=True)
+        import re as _re
+        names = set(_re.findall(r"\.([A-Za-z_]\w*)\b(?!\()", src))
+        setting_fields = {fl["name"] for k_, a_ in db.adts.items() if k_.endswith("prolonged_sound_mark::PluginSettings") for v_ in a_["variants"] for fl in v_["fields"]}
+        others = sorted((names & setting_fields) - {"prolongedSoundMarks"})
+        ok = "prolongedSoundMarks" in names and not others
+        ctx.ob("set_up|set-source", ok, "the mark set is `%s`: built from prolongedSoundMarks: %s; other settings flowing in: %s" % (src[:90], "prolongedSoundMarks" in names, others), fn=f, site=s.get("sp"))
+    ctx.floor(1)
